@@ -331,6 +331,12 @@ func (w SocialWrappedCallbacks) update(c context.Context, a vocab.ActivityStream
 				delete(m, k)
 			}
 		}
+		// Delete top-level values where the raw object had nils.
+		for k, v := range rawObjectAt(w.rawActivity, idx) {
+			if _, ok := m[k]; v == nil && ok {
+				delete(m, k)
+			}
+		}
 		newT, err := streams.ToType(c, m)
 		if err != nil {
 			return err
@@ -347,6 +353,24 @@ func (w SocialWrappedCallbacks) update(c context.Context, a vocab.ActivityStream
 	}
 	if w.Update != nil {
 		return w.Update(c, a)
+	}
+	return nil
+}
+
+// rawObjectAt returns the raw JSON map of the idx-th value of the 'object'
+// property of a raw activity, or nil if that value is not a JSON object.
+func rawObjectAt(rawActivity map[string]interface{}, idx int) map[string]interface{} {
+	switch o := rawActivity["object"].(type) {
+	case map[string]interface{}:
+		if idx == 0 {
+			return o
+		}
+	case []interface{}:
+		if idx < len(o) {
+			if m, ok := o[idx].(map[string]interface{}); ok {
+				return m
+			}
+		}
 	}
 	return nil
 }
